@@ -331,7 +331,8 @@ fn gen_script(rng: &mut Rng, len: usize, flavour: u64) -> String {
 }
 pub fn gen(rng: &mut Rng, n: usize, out: &mut Vec<String>) {
     for i in 0..n {
-        let len = 3 + rng.below(14) as usize;
+        // one script in twelve is a long history (40-100 steps): leaks and counters that only show after many operations
+        let len = if i % 12 == 11 { 40 + rng.below(60) as usize } else { 3 + rng.below(14) as usize };
         out.push(format!("conn {}", gen_script(rng, len, (i % 4) as u64)));
     }
 }
